@@ -170,8 +170,16 @@ func Round(tcp bool, addr net.Addr, wires [][]byte, sentinelID, sentinel2ID uint
 
 	resps = map[uint16]*dns.Msg{}
 	seen1, seen2, sent2 := false, false, false
+	// A datagram can be lost on a loaded machine (full socket buffer): over UDP
+	// an awaited sentinel is sent again, up to three times, before the round is
+	// given up as a time-out.  A repeated sentinel changes nothing for the
+	// verdict: its response only proves that everything sent before it has been
+	// handled.
+	resends := 0
 	for {
 		switch {
+		case !tcp && (!seen1 || (sent2 && !seen2)):
+			_ = c.SetReadDeadline(time.Now().Add(2 * time.Second))
 		case !seen1 || (sent2 && !seen2):
 			_ = c.SetReadDeadline(time.Now().Add(8 * time.Second))
 		default:
@@ -190,6 +198,20 @@ func Round(tcp bool, addr net.Addr, wires [][]byte, sentinelID, sentinel2ID uint
 			}
 
 			if !seen1 || (sent2 && !seen2) {
+				if ne, ok := rerr.(net.Error); ok && ne.Timeout() && !tcp && resends < 3 {
+					resends++
+					id := sentinelID
+					if seen1 {
+						id = sentinel2ID
+					}
+
+					if err = send(Sentinel(id)); err != nil {
+						return resps, false, err
+					}
+
+					continue
+				}
+
 				return resps, false, fmt.Errorf("timed out waiting for a sentinel response: %w", rerr)
 			}
 
@@ -198,6 +220,10 @@ func Round(tcp bool, addr net.Addr, wires [][]byte, sentinelID, sentinel2ID uint
 
 		switch m.Id {
 		case sentinelID:
+			if seen1 {
+				continue
+			}
+
 			seen1 = true
 			if missing() && !sent2 {
 				sent2 = true
@@ -206,8 +232,50 @@ func Round(tcp bool, addr net.Addr, wires [][]byte, sentinelID, sentinel2ID uint
 				}
 			}
 		case sentinel2ID:
+			if seen2 {
+				continue
+			}
+
 			seen2 = true
+			if missing() {
+				// Two round trips have completed and an expected response is
+				// still missing.  Requests are served concurrently, so on a
+				// loaded machine the answer may simply be late, and over UDP
+				// the query or its answer may have been lost: wait, send the
+				// unanswered queries once more over UDP, and wait again,
+				// before concluding that the server does not answer them.
+				lateWait(c, recv, resps, missing, 3*time.Second)
+				if missing() && !tcp {
+					for _, w := range wires {
+						if len(w) >= 2 && expect[binary.BigEndian.Uint16(w)] && resps[binary.BigEndian.Uint16(w)] == nil {
+							if err = send(w); err != nil {
+								return resps, false, err
+							}
+						}
+					}
+
+					lateWait(c, recv, resps, missing, 3*time.Second)
+				}
+
+				return resps, true, nil
+			}
 		default:
+			resps[m.Id] = m
+		}
+	}
+}
+
+// lateWait reads responses for up to d or until nothing expected is missing.
+func lateWait(c net.Conn, recv func() (*dns.Msg, error), resps map[uint16]*dns.Msg, missing func() bool, d time.Duration) {
+	end := time.Now().Add(d)
+	for missing() && time.Now().Before(end) {
+		_ = c.SetReadDeadline(end)
+		m, rerr := recv()
+		if rerr != nil {
+			return
+		}
+
+		if _, dup := resps[m.Id]; !dup {
 			resps[m.Id] = m
 		}
 	}
